@@ -18,7 +18,9 @@ THEOREMS = ['Otel.C05.' + t for t in (
     'run_child_identity', 'run_flags_and_tracestate', 'run_contexts_valid', 'run_exported_recording',
     'dropped_span_valid_context_not_exported', 'run_exported_nodup',
     # threads
-    'stacks_general', 'threads_have_own_active_stack', 'start_uses_own_thread_only')]
+    'stacks_general', 'threads_have_own_active_stack', 'start_uses_own_thread_only',
+    # a tracer disabled by the ScopeConfigurator (the API no-op span)
+    'disabled_start_frame', 'disabled_span_never_exported', 'disabled_span_context_invalid_witness', 'disabled_span_active_gives_root')]
 HARNESSES = [Harness('s_c05', ['harness/s_c05.cc'], sdk_srcs=sdk_sources('common', 'resource', 'version', 'trace'),
                      includes=SDK_INCLUDES)]
 H = 's_c05'
@@ -26,7 +28,10 @@ RULE = ('programs of start / scope (WithActiveSpan) / endscope / end on 1-3 real
         'parents: default, explicit SpanContext (literal remote/local incl. invalid ids, or another span\'s), explicit Context (empty or '
         'current, root marker absent/false/true, span kept / another span / DefaultSpan of a literal); samplers: on, off, ratio, '
         'parent-based over each, constant custom with/without trace state, by-name custom (per-span decision and trace state); '
-        'counter id generators incl. bases that emit a zero id; all 256 parent flag bytes x samplers x both explicit mechanisms. '
+        'counter id generators incl. bases that emit a zero id; all 256 parent flag bytes x samplers x both explicit mechanisms; '
+        'a seventh of the programs also start spans on a tracer that the provider\'s ScopeConfigurator disables (startx); the harness rotates '
+        'provider constructors / factories, the global Provider, every usable StartSpan overload with non-empty attributes and links, '
+        'span kinds, explicit start times, Scope vs WithActiveSpan and cross-checks every accessor of the new context. '
         'non-trivial = a program with at least one span that has a valid parent and one that has none; distinct = distinct case line')
 TRUSTED = ['freshness of ids is relative to the hypothesis that the IdGenerator returns non-zero, pairwise distinct ids; the random generator '
            '(random_id_generator.cc, random.cc) is not modelled (its output distribution and the 2^-64 zero id are outside the theorems)',
@@ -103,8 +108,11 @@ def header(rng, sampler=None):
     return sampler, f'tr {sampler} {rng.randrange(2)} {sb:x} {tb:x}'
 
 
-def program(rng, tags, nops=None, sampler=None, flags=None):
+def program(rng, tags, nops=None, sampler=None, flags=None, off_p=None):
     sampler, head = header(rng, sampler)
+    # some programs also use a tracer of the same provider that its ScopeConfigurator disables
+    if off_p is None:
+        off_p = 0.25 if rng.random() < 1 / 7 else 0.0
     nt = rng.choice([1, 1, 2, 3])
     ops = []
     nspans = 0
@@ -115,7 +123,8 @@ def program(rng, tags, nops=None, sampler=None, flags=None):
         r = rng.random()
         t = rng.randrange(nt)
         if r < 0.5 or nspans == 0:
-            ops.append(f'start {t} {rand_parent(rng, nspans, flags)} {rand_name(rng, sampler)}')
+            word = 'startx' if off_p and rng.random() < off_p else 'start'
+            ops.append(f'{word} {t} {rand_parent(rng, nspans, flags)} {rand_name(rng, sampler)}')
             nspans += 1
             # usually make the new span active right away: that is how trees get deep
             if rng.random() < 0.55 and depth[t] < 6:
@@ -148,7 +157,24 @@ def corpus():
     out.append(Case(f'tr on 1 1 100 2 ; start 0 def a ; scope 0 0 ; start 0 sc:{rp}.00.1.- b ; start 0 ctx:e:n:lit{rp}.01.0.- c ; '
                     f'start 0 ctx:e:n:keep d ; start 0 ctx:e:1:keep e ; start 0 ctx:c:1:keep f ; start 0 ctx:c:0:keep g ; start 1 def h ; '
                     f'start 0 sc:{"00" * 16}.0102030405060708.01.1.- i ; end 0 ; end 1 ; end 2 ; end 3 ; end 4', H, ('corpus', 'precedence'), 'corpus'))
+    # a tracer disabled by the ScopeConfigurator: no-op span, no ids drawn, nothing exported; made active it hides the outer span
+    out.append(Case(f'tr on 1 1 100 1 ; start 0 def a ; scope 0 0 ; startx 0 def lib ; start 0 def b ; scope 0 1 ; start 0 def c ; '
+                    f'startx 0 sc:{rp}.01.1.- d ; startx 0 ctx:c:1:of0 e ; end 1 ; end 3 ; endscope 0 ; start 0 def f ; end 0', H,
+                    ('corpus', 'disabled-tracer'), 'corpus'))
+    out.append(Case(f'tr pb/off 0 ffffffffffffffff 1 2 ; startx 1 def x ; start 0 scof:0 y ; scope 1 0 ; start 1 def z ; startx 0 ctx:e:n:of2 w ; end 0',
+                    H, ('corpus', 'disabled-tracer'), 'corpus'))
     return out
+
+
+# Candidate findings (NOT generated by default; see coverage/AUDIT_C05.md).  Read literally, the statement wants every started span
+# to carry its valid parent's trace id / a fresh valid context ("a span that is not recorded ... still exposes this valid context
+# for propagation").  A tracer disabled through the ScopeConfigurator answers the API's NoopTracer span instead, whose context
+# is SpanContext(false, false): propagation is cut at a disabled instrumentation scope (a span started under that no-op span,
+# by an enabled tracer, becomes the root of a new trace).  `oracle(case, out, strict_disabled=True)` judges these lines by the literal reading.
+CANDIDATE_FINDINGS = [
+    'tr on 1 1 1 1 ; startx 0 sc:0102030405060708090a0b0c0d0e0f10.0102030405060708.01.1.- x',
+    'tr on 1 1 1 1 ; start 0 def a ; scope 0 0 ; startx 0 def lib ; scope 0 1 ; start 0 def b',
+]
 
 
 def generate(rng, tier):
@@ -167,6 +193,8 @@ def generate(rng, tier):
             out.append(program(rng, ('program', 'all-flags'), nops=rng.randrange(4, 12), sampler=s, flags=f))
     for _ in range(5000 if big else 300):   # long, deep single-thread trees
         out.append(program(rng, ('program', 'long'), nops=rng.randrange(45, 90)))
+    for _ in range(2000 if big else 120):   # enabled and disabled tracers of one provider, heavily mixed
+        out.append(program(rng, ('program', 'disabled-tracer'), off_p=rng.choice([0.2, 0.4, 0.6])))
     return out
 
 
@@ -203,9 +231,13 @@ def spec_decision(parts, parent, name):
     return (0 if r <= 0 else 2 if r >= 1 else None, 'null')
 
 
-def oracle(case, out):
+def oracle(case, out, strict_disabled=False):
     if out.startswith('CRASH'):
         return ('never-crashes', out)
+    if '!' in out:
+        # the harness found an accessor of a context (IsSampled, IsRandom, ToLowerBase16, CopyBytesTo, ==, Id(), IsValid) that
+        # contradicts the fields it printed, or the exporter saw a SpanData whose context disagrees with its identity fields
+        return ('context-accessors-agree-with-the-context', out[max(0, out.index('!') - 80):out.index('!') + 40])
     if case.line.startswith('rid '):
         return None if out == 'dups=0 zero=0 forkclash=0' else ('fresh-non-zero-ids-across-threads-and-fork', out)
     groups = case.line.split(' ; ')
@@ -218,7 +250,7 @@ def oracle(case, out):
         return ('one-observation-per-operation', out[:200])
     sampler = head[1].split('/')
     sbase, tbase, nt = int(head[3], 16), int(head[4], 16), int(head[5])
-    nstarts = sum(1 for o in ops if o[0] == 'start')
+    nstarts = sum(1 for o in ops if o[0] == 'start')    # `startx` (disabled tracer) must not draw ids
     # hypothesis of the freshness clauses: the generator never answers a zero id in this case
     gen_ok = all((sbase + i) % 2 ** 64 != 0 for i in range(nstarts)) and all((tbase + i) % 2 ** 128 != 0 for i in range(nstarts))
     stacks = [[] for _ in range(nt)]
@@ -226,7 +258,7 @@ def oracle(case, out):
     seen_sids, seen_tids = set(), set()
     for i, (op, o) in enumerate(zip(ops, obs)):
         where = f'op #{i} `{" ".join(op)}`'
-        if op[0] == 'start':
+        if op[0] in ('start', 'startx'):
             t = int(op[1]); p = op[2]; name = op[3]
             m = re.fullmatch(r's=(\S+) rec=([01])', o)
             if not m:
@@ -255,6 +287,16 @@ def oracle(case, out):
                 parent = None
             else:
                 parent = active if valid(active) else None
+            if op[0] == 'startx' and not strict_disabled:
+                # a tracer disabled by the ScopeConfigurator is the API's no-op tracer: nothing is recorded or exported (checked at
+                # `end` / teardown through rec=False) and its span carries no identity of its own - the invalid context.  (The
+                # literal reading - valid context even then - is CANDIDATE_FINDINGS, strict_disabled=True.)
+                if rec:
+                    return ('disabled-tracer-records-nothing', f'{where}: {o}')
+                if int(ctx['tid'], 16) != 0 or int(ctx['sid'], 16) != 0 or ctx['flags'] != 0 or ctx['remote'] or ctx['ts'] != '-':
+                    return ('disabled-tracer-span-has-no-identity-of-its-own', f'{where}: {o}')
+                spans.append({'ctx': ctx, 'rec': False, 'parent': None, 'ended': False})
+                continue
             # --- identity
             if int(ctx['sid'], 16) == 0 and gen_ok:
                 return ('fresh-non-zero-span-id', f'{where}: {o}')
@@ -287,6 +329,9 @@ def oracle(case, out):
                 return ('trace-state-is-the-samplers-if-given-else-the-parents', f'{where}: got {ctx["ts"]} want {want_ts}')
             if gen_ok and not valid(ctx):
                 return ('every-started-span-exposes-a-valid-context', f'{where}: {o}')
+            # "custom id generators": the ids are the configured generator's (here: the counter generator of the case header)
+            if (int(ctx['sid'], 16) - sbase) % 2 ** 64 >= nstarts or (parent is None and (int(ctx['tid'], 16) - tbase) % 2 ** 128 >= nstarts):
+                return ('ids-come-from-the-configured-generator', f'{where}: {o} (span base {sbase:x}, trace base {tbase:x}, {nstarts} starts)')
             seen_sids.add(ctx['sid']); seen_tids.add(ctx['tid'])
             spans.append({'ctx': ctx, 'rec': rec, 'parent': parent, 'ended': False})
         elif op[0] in ('scope', 'endscope'):
